@@ -1172,9 +1172,9 @@ fn plan(thorough: bool) -> Plan {
     let mut write_set = vec![Cx::True];
     write_set.extend(core.iter().step_by(if thorough { 1 } else { 2 }).cloned());
     if thorough {
-        for a in sc.iter().take(6) {
-            for b in sc.iter().take(6) {
-                write_set.push(and(a, b));
+        for x in 0..6 {
+            for y in [(x + 1) % 6, (x + 3) % 6] {
+                write_set.push(and(&sc[x], &sc[y]));
             }
         }
         for k in 0..6 {
@@ -1201,8 +1201,10 @@ fn battery(seq: &[Op], pl: &Plan, selftest: bool) -> Out {
     let ctx = Ctx { seq, m: &m, selftest };
     lap("build", out.calls);
     read_battery(&mut out, &ctx, &eng, &Cx::True, 2);
+    let core = core_atoms();
     for cx in &pl.full {
-        read_battery(&mut out, &ctx, &eng, cx, pl.level);
+        // the thin wrappers (projection, prefer_columnar=false, select_iter) only on the core atoms
+        read_battery(&mut out, &ctx, &eng, cx, if pl.level == 2 && !core.contains(cx) { 1 } else { pl.level });
     }
     lap("atoms read", out.calls);
     // quick: every second atom, shifted by the state's depth so that both halves occur
@@ -1223,9 +1225,11 @@ fn battery(seq: &[Op], pl: &Plan, selftest: bool) -> Out {
         text_battery(&mut out, &ctx, &eng, cx);
     }
     lap("pairs text", out.calls);
-    for cx in &pl.triples {
+    for (k, cx) in pl.triples.iter().enumerate() {
         read_battery(&mut out, &ctx, &eng, cx, 0);
-        text_battery(&mut out, &ctx, &eng, cx);
+        if (k + seq.len()) % 2 == 0 {
+            text_battery(&mut out, &ctx, &eng, cx);
+        }
     }
     lap("triples", out.calls);
     // "materialising columns changes only speed, never results"
@@ -1425,7 +1429,7 @@ fn main() {
     rep.rule("BFS over all mutation sequences (8 insert templates covering Int{0,1,-1,MAX,MIN} Float{0.0,-0.0,1.5,NaN,+inf,-inf} String{'a','','b','é'} Bool, explicit NULL and omitted column; update where {_id=1,TRUE} set one of 8 assignments; delete_rows where {_id=1,_id=2,_id>1}; create/drop hash index and ordered index on i,f,s,b,_id) up to the depth, every sequence replayed on a fresh table of the real engine; a state is distinct by (rows, next row id, index flags, raw vectorised columns with alive/null masks, all stored index entries)");
     let pl = plan(thorough);
     rep.rule("part B: every sequence of exactly five inserts over a subset of the templates (quick 3, thorough 6), without indexes and with hash+ordered indexes on i and f; battery: all atoms + TRUE through select/count/select_columnar, the limit/offset/streaming sweep for TRUE and the core atoms, half of the pairs");
-    rep.rule(&format!("on every distinct state: 6 operators x {{i,f,s,b,_id}} x every alphabet value (cross-type included) + TRUE = {} conditions through select, count, select_columnar (vectorised{}), select_streaming{} and as WHERE text through QueryRouter::execute (legacy grammar) and ::execute_parsed (AST grammar){}; {} AND/OR pairs of the 25 core atoms and {} AND-of-OR / OR-of-AND triples through select, count, select_columnar and as text; for {} conditions (TRUE, core atoms, AND pairs) select_with_limit and select_iter for every limit,offset <= n+1, page walks for every page size, select_streaming for every batch size <= n+1, sum/min/max; for {} conditions update and delete_rows on a rebuilt copy; materialize_columns/drop_columnar_data followed by the core atoms again. non-trivial = the condition selects a proper non-empty subset of the rows", pl.full.len() + 1, if thorough { ", also with projection and with prefer_columnar=false" } else { "" }, if thorough { ", select_iter" } else { "" }, if thorough { "" } else { " (text: every second atom, alternating with depth)" }, pl.pairs.len(), pl.triples.len(), pl.limit_set.len(), pl.write_set.len()));
+    rep.rule(&format!("on every distinct state: 6 operators x {{i,f,s,b,_id}} x every alphabet value (cross-type included) + TRUE = {} conditions through select, count, select_columnar (vectorised{}), select_streaming{} and as WHERE text through QueryRouter::execute (legacy grammar) and ::execute_parsed (AST grammar){}; {} AND/OR pairs of the 25 core atoms and {} AND-of-OR / OR-of-AND triples through select, count, select_columnar and (pairs: every 2nd quick 5th; triples: every 2nd) as text; for {} conditions (TRUE, core atoms, AND pairs) select_with_limit and select_iter for every limit,offset <= n+1, page walks for every page size, select_streaming for every batch size <= n+1, sum/min/max; for {} conditions update and delete_rows on a rebuilt copy; materialize_columns/drop_columnar_data followed by the core atoms again. non-trivial = the condition selects a proper non-empty subset of the rows", pl.full.len() + 1, if thorough { "; on TRUE and the core atoms also with projection, with prefer_columnar=false" } else { "" }, if thorough { " and select_iter" } else { "" }, if thorough { "" } else { " (text: every second atom, alternating with depth)" }, pl.pairs.len(), pl.triples.len(), pl.limit_set.len(), pl.write_set.len()));
     rep.assume("the oracle is Condition::evaluate applied to the reference rows (the property names it as the definition of 'satisfies'); reference rows are checked against the slab after every mutation");
     rep.assume("the in-memory ordered index is a function of the mutation history summarised by the stored _btree: entries (it cannot be observed directly)");
     rep.assume("text is read with AND binding tighter than OR (the repository's own AST parser does so); texts the router rejects with an error are counted, not judged");
